@@ -2,12 +2,12 @@
    the session starts from), and: the model satisfies the oracle. *)
 From Coq Require Import ZArith List Bool Lia.
 From FT Require Import Model.Base Model.Obs Model.C15Metrics Model.C15Check
-                       Proofs.ObsP Proofs.C15RunP Proofs.C15StateP.
+                       Proofs.ObsP Proofs.C15RunP Proofs.C15RefP Proofs.C15StateP.
 Import ListNotations.
 Open Scope Z_scope.
 
 Definition kernel_run (s : session) : tree * list mev :=
-  run true 0 (s_lv s) (z_init (s_lv s)) (s_a s) (s_b s).
+  run true 0 (s_da s) (s_db s) (s_lv s) (z_init (s_lv s)) (s_a s) (s_b s).
 
 Definition counts_ev (evs : list mev) : Z * Z * Z :=
   (cnt (is_cnt 0) evs, cnt (is_cnt 1) evs, cnt (is_cnt 2) evs).
@@ -21,7 +21,7 @@ Definition iters_ev (s : session) (evs : list mev) : list (option Z) :=
 
 (* what is observed of a complete session, whatever ran before it *)
 Definition obs_closed (s : session) : V :=
-  c15_obs (fst (run false 0 (s_lv s) (z_init (s_lv s)) (s_a s) (s_b s)))
+  c15_obs (fst (run false 0 (s_da s) (s_db s) (s_lv s) (z_init (s_lv s)) (s_a s) (s_b s)))
           (fst (kernel_run s)) (counts_ev (snd (kernel_run s))) (iters_ev s (snd (kernel_run s))).
 
 Lemma obs_from_closed m s : s_end s = true -> obs_from m s = obs_closed s.
@@ -29,7 +29,7 @@ Proof.
   intros Hend. unfold obs_from, obs_closed, run_session, kernel_run.
   destruct (session_start_facts m s) as [Hc [_ [_ [Hm [Ha [Hu _]]]]]]. cbv zeta in *.
   rewrite Hc, Hend.
-  destruct (run true 0 (s_lv s) (z_init (s_lv s)) (s_a s) (s_b s)) as [z evs] eqn:Er.
+  destruct (run true 0 (s_da s) (s_db s) (s_lv s) (z_init (s_lv s)) (s_a s) (s_b s)) as [z evs] eqn:Er.
   cbn [fst snd]. f_equal.
   - unfold counts_of, counts_ev.
     destruct (apply_counts evs (session_start m s)) as [H1 [H2 H3]].
@@ -41,19 +41,6 @@ Qed.
 
 Lemma obs_isolated m1 m2 s : s_end s = true -> obs_from m1 s = obs_from m2 s.
 Proof. intros H. rewrite !obs_from_closed; auto. Qed.
-
-Lemma V_nzl_VL l :
-  V_nzl (VL l) = sumZ (map (fun e => match e with VL [_; sub] => V_nzl sub | _ => 0 end) l).
-Proof. reflexivity. Qed.
-
-Lemma V_nzl_tree t : V_nzl (V_tree t) = nzl t.
-Proof.
-  induction t as [v|es IH] using tree_ind'; [reflexivity|].
-  cbn [V_tree nzl]. rewrite V_nzl_VL, map_map.
-  induction es as [|[c s] es IHes]; cbn [map sumZ fold_right]; auto.
-  inversion IH as [|x l Hx Hl]; subst. cbn [snd fst] in *.
-  unfold sumZ in IHes. rewrite IHes; auto. rewrite Hx. reflexivity.
-Qed.
 
 Lemma kernel_wf_ok lv a b :
   kernel_wf lv a b = true ->
@@ -86,20 +73,36 @@ Proof.
   replace (Z.to_nat (Z.of_nat i - 0)) with i by lia. reflexivity.
 Qed.
 
+Lemma zval_init lv : feq (zval (z_init lv)) (fun _ => 0).
+Proof. intros p. unfold z_init. apply zval_default. Qed.
+
 Lemma counts_spec s :
   kernel_wf (s_lv s) (s_a s) (s_b s) = true ->
   let evs := snd (kernel_run s) in
-  cnt (is_cnt 0) evs = spec_leafs (s_lv s) (s_a s) (s_b s) /\
-  cnt (is_cnt 2) evs = spec_leafs (s_lv s) (s_a s) (s_b s) /\
-  cnt (is_cnt 1) evs = cnt (is_cnt 2) evs - nzl (fst (kernel_run s)).
+  cnt (is_cnt 0) evs = spec_leafs (s_da s) (s_db s) (s_lv s) (s_a s) (s_b s) /\
+  cnt (is_cnt 2) evs = spec_leafs (s_da s) (s_db s) (s_lv s) (s_a s) (s_b s) /\
+  cnt (is_cnt 1) evs
+  = ref_adds (fun _ => 0) (spec_trace (s_da s) (s_db s) (s_lv s) (s_a s) (s_b s)).
 Proof.
   intros Hwf. destruct (kernel_wf_ok _ _ _ Hwf) as [Hlv [Ha Hb]]. cbv zeta. unfold kernel_run.
   repeat split.
   - apply run_cnt_leafs; auto.
   - apply run_cnt_leafs; auto.
-  - destruct (run_z (s_lv s) 0 (z_init (s_lv s)) (s_a s) (s_b s) Hlv Ha Hb (zpre_default _))
-      as [_ Hd].
-    unfold dadd, z_init in Hd. rewrite nzl_default in Hd. unfold z_init. lia.
+  - destruct (run_ref (s_da s) (s_db s) (s_lv s) 0 (z_init (s_lv s)) (s_a s) (s_b s) Hlv Ha Hb
+                (zok_default _)) as [_ [_ Hd]].
+    rewrite Hd. apply ref_adds_ext. apply zval_init.
+Qed.
+
+(* the output tensor holds, at every point, the value of the reference map *)
+Lemma output_ref s :
+  kernel_wf (s_lv s) (s_a s) (s_b s) = true ->
+  feq (zval (fst (kernel_run s)))
+      (ref_final (fun _ => 0) (spec_trace (s_da s) (s_db s) (s_lv s) (s_a s) (s_b s))).
+Proof.
+  intros Hwf. destruct (kernel_wf_ok _ _ _ Hwf) as [Hlv [Ha Hb]]. unfold kernel_run.
+  destruct (run_ref (s_da s) (s_db s) (s_lv s) 0 (z_init (s_lv s)) (s_a s) (s_b s) Hlv Ha Hb
+              (zok_default _)) as [_ [Hv _]].
+  intros p. rewrite Hv. apply ref_final_ext. apply zval_init.
 Qed.
 
 Lemma model_meets_spec c : c15_wf c = true -> c15_holds c (c15_model c) = true.
@@ -109,18 +112,18 @@ Proof.
   unfold c15_model. rewrite obs_from_closed by auto.
   unfold obs_closed, c15_obs, V_counts, counts_ev. cbn [fst snd].
   destruct (counts_spec _ Hk) as [H0 [H2 H1]]. cbv zeta in *.
-  rewrite (iters_ev_spec _ Hk), V_nzl_tree, H0, H2, H1, H2.
+  rewrite (iters_ev_spec _ Hk), H0, H2, H1.
   unfold kernel_run. rewrite run_transparent.
   rewrite !V_eqb_refl, !Z.eqb_refl. reflexivity.
 Qed.
 
 (* the output tensor of a session, started in any state, is the output with collection off *)
 Lemma session_transparent m s :
-  fst (fst (run_session m s)) = fst (run false 0 (s_lv s) (z_init (s_lv s)) (s_a s) (s_b s)).
+  fst (fst (run_session m s)) = fst (run false 0 (s_da s) (s_db s) (s_lv s) (z_init (s_lv s)) (s_a s) (s_b s)).
 Proof.
   unfold run_session. destruct (session_start_facts m s) as [Hc _]. cbv zeta in Hc. rewrite Hc.
   rewrite <- run_transparent.
-  destruct (run true 0 (s_lv s) (z_init (s_lv s)) (s_a s) (s_b s)). reflexivity.
+  destruct (run true 0 (s_da s) (s_db s) (s_lv s) (z_init (s_lv s)) (s_a s) (s_b s)). reflexivity.
 Qed.
 
 Lemma session_iters_exact m s q :
